@@ -40,6 +40,13 @@ def _exact_cases():
                 sc += [("send", 2 + i, "ok", "idem") for i in range(fresh)]
                 sc += [("net", "accept"), ("adv", 40)]
                 out.append(("outage", sc))
+    # lifetimes of the caller's own choosing, through both entry points (ids 3, 7, 11 use send_with_header): a message that is expired on
+    # arrival (lifetime 0) never occupies a slot once the next message is queued and is never transmitted
+    for pol in ("zero", "brief", "long"):
+        for n in (9, 10, 11):
+            sc = [("net", "refuse"), ("open",), ("adv", 1)] + [("send", i, "ok", pol) for i in range(1, n + 1)] + [("adv", 2)]
+            sc += [("send", 20 + i, "ok", "idem") for i in range(10)] + [("net", "accept"), ("adv", 24)]
+            out.append(("outage", sc))
     return out
 
 
